@@ -557,8 +557,13 @@ func (c *pcCase) buildSet() *apps.StatefulSet {
 	if !c.selNil {
 		set.Spec.Selector = &metav1.LabelSelector{MatchLabels: c.sel.toGo()}
 	}
-	for _, t := range c.tmpls {
-		set.Spec.VolumeClaimTemplates = append(set.Spec.VolumeClaimTemplates, v1.PersistentVolumeClaim{ObjectMeta: metav1.ObjectMeta{Name: t.name, Labels: t.labels.toGo()}})
+	for j, t := range c.tmpls {
+		tmpl := v1.PersistentVolumeClaim{ObjectMeta: metav1.ObjectMeta{Name: t.name, Labels: t.labels.toGo()}}
+		if j%2 == 1 {
+			// a template pasted from another namespace's manifest keeps a namespace of its own: claims live in the SET's namespace
+			tmpl.Namespace = "tmpl-ns"
+		}
+		set.Spec.VolumeClaimTemplates = append(set.Spec.VolumeClaimTemplates, tmpl)
 	}
 	return set
 }
